@@ -695,15 +695,78 @@ def rule_e7(ck, agg, f, fi, bydecl):
     if cfg is None:
         ck.incomplete("E7.exit-defines-r", "%s: no CFG" % key)
         return
-    kernel_defs, early = {}, {}
+    kernel_defs, early, unmodelled = {}, {}, {}
+
+    def mutable_param(call, i):
+        """the callee parameter receiving argument i is a pointer/reference to a mutable object"""
+        pts = call.get("pt", [])
+        if i >= len(pts):
+            return True        # variadic / unknown: assume the worst
+        t = f.type(pts[i]).strip()
+        return ("*" in t or "&" in t) and not t.startswith("const ")
+
+    def is_r_array(a):
+        r = fi.role(a)
+        return r[0] == "vec" and r[1] == 0 and r[2] == "elements"
+
+    def is_r_object(a):
+        a = fi.resolve(a)
+        return a is not None and a.get("k") == "Ref" and a.get("dk") == "param" and fi.pindex.get(a.get("d")) == 0
+
+    # expressions the function's own guards establish as "number of scalars of r" (the extent of a flat copy into r)
+    blockedm = tmpl(f.cls) in BLOCKED
+    podsize = {("vec", 0, "size", "pod")}
+    if fi.pkind[0] == "DV":
+        podsize.add(("vec", 0, "size", "native"))
+    guards = []
+    for c in f.calls():
+        eq = assertion_eq(fi, c)
+        if eq:
+            a, b = eq
+            if b[0] == "vec" and a[0] == "this":
+                a, b = b, a
+            if a[0] == "vec" and a[2] == "size" and b[0] == "this" and b[1] in ("rows", "columns"):
+                guards.append((a, b))
+    for a, b in guards:
+        if a[1] == 0 and (blockedm or fi.pkind[0] == "DV"):
+            podsize.add(("this", b[1], "pod"))
+            if not blockedm:
+                podsize.add(("this", b[1], "native"))
+    for a, b in guards:
+        if a[1] != 0 and b in podsize and (fi.pkind[a[1]] == "DV" or a[3] == "pod"):
+            podsize.add(a)
+            if fi.pkind[a[1]] == "DV":
+                podsize.add(("vec", a[1], "size", "pod"))
+                podsize.add(("vec", a[1], "size", "native"))
+
     for n in f.nodes():
-        if n.get("k") == "Call" and ARCH_APPLY.match(n.get("callee", "")):
+        k = n.get("k")
+        if k == "Call" and ARCH_APPLY.match(n.get("callee", "")):
             pn = n.get("pn", [])
             if "r" in pn and len(n.get("a", [])) == len(pn):
-                r = fi.role(n["a"][pn.index("r")])
-                if r[0] == "vec" and r[1] == 0 and r[2] == "elements":
+                if is_r_array(n["a"][pn.index("r")]):
                     kernel_defs[n["i"]] = n
-        elif n.get("k") == "MCall":
+                    continue
+        if k == "Call" and re.search(r"(^|::)MemoryPool::(copy|set_memory)$", n.get("callee", "")) and len(n.get("a", [])) == 3 and is_r_array(n["a"][0]) and mutable_param(n, 0):
+            cnt = fi.role(n["a"][2])
+            if cnt not in podsize:
+                unmodelled[n["i"]] = "%s writes %s scalars into r; the function's guards do not establish that this is the pod size of r" % (n["callee"].rsplit("::", 1)[-1], role_str(cnt))
+            elif n["callee"].endswith("::set_memory"):
+                v = fi.role(n["a"][1])
+                early[n["i"]] = (n, "format" if v == ("const", 0.0) else "format-nonzero")
+            else:
+                src = fi.role(n["a"][1])
+                early[n["i"]] = (n, "copy-y" if (src[0] == "vec" and src[1] == 2 and src[2] == "elements") else "copy-other:" + role_str(src))
+            continue
+        if k in ("Call", "MCall", "Construct", "TempObj", "OpCall"):
+            for i, a in enumerate(n.get("a", [])):
+                if (is_r_array(a) or is_r_object(a)) and mutable_param(n, i) and n.get("i") not in kernel_defs:
+                    unmodelled[n["i"]] = "r (or its array) is passed to the mutable parameter #%d of %s, which the rule does not model" % (i, n.get("callee", "?"))
+        if k == "Assign":
+            l = n.get("lhs") or {}
+            if l.get("k") == "Index" and is_r_array(l.get("b")):
+                unmodelled[n["i"]] = "direct store through the array of r: %s" % render(n)[:60]
+        if k == "MCall":
             o = fi.resolve(n.get("obj"))
             if o is not None and o.get("k") == "Ref" and o.get("dk") == "param" and fi.pindex.get(o.get("d")) == 0 and not n.get("cconst"):
                 nm = n.get("n")
@@ -717,9 +780,12 @@ def rule_e7(ck, agg, f, fi, bydecl):
                 elif nm in ("elements", "size"):
                     pass
                 else:
-                    ck.incomplete("E7.exit-defines-r", "%s: unrecognised modification of the result operand: %s (line %s)" % (key, render(n)[:120], n.get("l")))
+                    unmodelled[n["i"]] = "unrecognised modification of the result operand: %s" % render(n)[:120]
+    # policy: an operation on r the rule does not model is never "no definition of r" — it is analysis-incomplete
+    for i, why in sorted(unmodelled.items()):
+        ck.incomplete("E7.exit-defines-r", "%s: %s (line %s)" % (key, why, (f.by_id(i) or {}).get("l")))
     good_early = {i for i, (n, form) in early.items() if form == ("format" if ar == 2 else "copy-y")}
-    is_def = lambda n: n.get("i") in kernel_defs or n.get("i") in good_early
+    is_def = lambda n: n.get("i") in kernel_defs or n.get("i") in good_early or n.get("i") in unmodelled
     ok, bad = cfg.must_pass(is_def)
     detail = "every normal exit is preceded by a definition of r (%d kernel call(s), %d early-out(s))" % (len(kernel_defs), len(good_early))
     line = f.line
@@ -727,8 +793,10 @@ def rule_e7(ck, agg, f, fi, bydecl):
         path = cfg.path_to(bad[0], avoid={b for b in cfg.blocks if any(is_def(fi.fn.by_id(e) or {}) for e in cfg.blocks[b]["el"])})
         lines = [l for l in cfg.block_lines(path) if l]
         line = lines[-1] if lines else f.line
-        detail = "a normal exit is reachable without any definition of r (%s): path through lines %s" % (
-            "format()" if ar == 2 else "copy(y)" + " or the kernel call", sorted(set(lines))[-8:])
+        wrongform = ["'%s' (line %s)" % (render(n_)[:70], n_.get("l")) for i_, (n_, fm_) in sorted(early.items()) if i_ not in good_early]
+        detail = ("a normal exit is reachable without a definition of r with the value of this form%s (%s): path through lines %s" % (
+            (" — only " + ", ".join(wrongform[:2]) + ", which does not produce it") if wrongform else "",
+            "format()" if ar == 2 else "copy(y)" + " or the kernel call", sorted(set(lines))[-8:]))
     agg.add("E7.exit-defines-r", key, ok, detail, f.file, line, inst=inst)
 
     # early-outs: form of the arity + zero-product condition, for those that can be the final definition
@@ -771,7 +839,10 @@ def rule_e7(ck, agg, f, fi, bydecl):
             ck.incomplete("E7.early-out", "%s: unrecognised early-out condition '%s' (line %s)" % (key, render(ifn["c"])[:120], ifn.get("l")))
             continue
         if ar == 4:
-            sem = transfer_semantics(bydecl, n, 0)
+            if n.get("k") == "Call" and n.get("callee", "").endswith("MemoryPool::copy"):
+                sem = {"value"}      # copies `count` scalars from y's array into the array r already owns
+            else:
+                sem = transfer_semantics(bydecl, n, 0)
             if not sem:
                 ck.incomplete("C6.early-out-copy", "%s: cannot decide how '%s' transfers y into r (callee body of %s not resolved)" % (key, render(n)[:60], n.get("cfull", "?")))
             else:
